@@ -221,15 +221,38 @@ pub fn run() {
             "shutdown" => {
                 let mut hs = Vec::new();
                 let at_ret: Arc<Mutex<Vec<usize>>> = Arc::new(Mutex::new(Vec::new()));
+                let cross = a.get("cross").map(|s| s == "1").unwrap_or(false);
+                let other = RouterProxy::new(); // cross=1: shutdown() is called from a callback running on ANOTHER router's thread
                 for _ in 0..nshut {
                     let p = proxy.clone();
                     let (l, ar) = (log.clone(), at_ret.clone());
-                    hs.push(std::thread::spawn(move || {
+                    let body = move || {
                         p.shutdown();
                         // the very instant shutdown() returns: how many callbacks have been dropped?
                         let n = l.0.lock().unwrap().iter().filter(|e| e.0 == "drop" && e.1 < 500).count();
                         ar.lock().unwrap().push(n);
-                    }));
+                    };
+                    if cross {
+                        let (qtx, qrx) = ipc::channel::<u32>().unwrap();
+                        let (dtx, drx) = crossbeam_channel::bounded::<()>(1);
+                        let mut body = Some(body);
+                        other.add_route(
+                            qrx.to_opaque(),
+                            Box::new(move |_m| {
+                                if let Some(b) = body.take() {
+                                    b();
+                                    let _ = dtx.send(());
+                                }
+                            }),
+                        );
+                        let _ = qtx.send(1);
+                        hs.push(std::thread::spawn(move || {
+                            let _ = drx.recv_timeout(std::time::Duration::from_secs(8));
+                            drop(qtx);
+                        }));
+                    } else {
+                        hs.push(std::thread::spawn(body));
+                    }
                 }
                 // routes offered while / after the shutdown is in progress
                 let mut late_handles = Vec::new();
@@ -313,6 +336,7 @@ pub fn run() {
                 );
                 drop(late_handles);
                 drop(wave2_keep);
+                other.shutdown();
                 continue;
             },
             "proxydrop" => {
